@@ -378,8 +378,7 @@ Qed.
 Lemma In_norm : forall mode (r : dict) kv, In kv (norm value is_none mode r) -> In kv r.
 Proof. intros [] r kv H; simpl in H; try assumption. apply filter_In in H. tauto. Qed.
 
-Variable veq : value -> value -> bool.
-Notation vrun := (run value is_none veq rcfg rr sg env dc).
+Notation vrun := (run value is_none rcfg rr sg env dc).
 
 Lemma run_ref_nv : forall is_async c,
   vrun is_async c =
